@@ -20,6 +20,8 @@ def cases(rng, tier):
         yield Case(program=gen.render(fref_program(rng)), tag='fref', nontrivial=True, big=True)
     for i in range(n // 6):
         yield Case(program=identity_program(rng), tag='fn-identity', nontrivial=True, big=True)
+    for kind, prog in index_programs():
+        yield Case(program=prog, tag='index-' + kind, nontrivial=True, big=True)
     # every syntactic form at random (untyped): the model is the oracle, errors included
     for i in range(2 * n):
         t = gen.wild(rng, rng.randint(2, 5))
@@ -40,6 +42,20 @@ OBSERVERS = ["(ㄱㅇㄱ ㄱㅇㄱ ㄴ ㅎㄷ ㅎ)",                            
              "(ㄱㅇㄱ ㅎㄱ ㅎ)",                                        # λa. a()
              "(ㄱㅇㄱ (ㄱㅇㄱ ㄴ ㅅㅈㅎㄷ) ㅎㄴ ㅎ)",                          # λa. {a: 1}(a)       (a key finds itself)
              "((ㄱㅇㄱ ㅁㄹㅎㄴ) (ㄱㅇㄱ ㅁㄹㅎㄴ) ㄴ ㅎㄷ ㅎ)"]                   # λa. [a] = [a]
+
+
+def index_programs():
+    """every sequence-like callable × length 0–3 × every position from −len−3 to len+2, called directly and through a closure:
+    positions −len … len−1 select, every other position is the out-of-range exception (seeded change S02h let a string
+    position below −len wrap to the first character)"""
+    from ..gen import lit, bi, call, fundef, arg, render, str_lit, bytes_lit
+    for n in range(0, 4):
+        seqs = {'list': bi('ㅁㄹ', *[lit(10 + i) for i in range(n)]), 'str': str_lit("가b😀d"[:n]), 'bytes': bytes_lit(b"\x00ab\xff"[:n]),
+                'exc': bi('ㄷㅂ', *[lit(20 + i) for i in range(n)])}
+        for kind, e in seqs.items():
+            for i in range(-n - 3, n + 3):
+                yield kind, render(call(e, lit(i)))
+                yield kind + '-closure', render(call(fundef(call(arg(1), arg(0))), lit(i), e))
 
 
 def identity_program(rng):
@@ -262,7 +278,7 @@ SPEC = {
     'relevant': relevant,
     'stream': 'C02 typed/closure program stream (main.main result vs uhdrv main)',
     'rule': 'type-directed random closed programs (closures returned / passed / nested ≤ depth, computed and negative '
-            'indices, Boolean / list / dict / string callables) plus the wild family (untyped random trees over every syntactic form: references in and out of range, any function index, definitions, built-ins at typical and untypical arities, arbitrary callees), closure families, the fref family (2–4 nested functions, the innermost calling any enclosing level by positive or negative function index, directly or through an identity), the fn-identity family (a function value handed on in tail position by 1–3 functions — also after it was evaluated — then compared with itself, used as a dictionary key, called), the badref family (one reference made ill-scoped: negative / too large position, non-existent frame) and the scope family (one enclosing closure applied along several argument paths; inner bodies refer to outer parameters statically, as computed positions, from nested functions, outermost-relative); a case is non-trivial when its '
+            'indices, Boolean / list / dict / string callables) plus the wild family (untyped random trees over every syntactic form: references in and out of range, any function index, definitions, built-ins at typical and untypical arities, arbitrary callees), closure families, the fref family (2–4 nested functions, the innermost calling any enclosing level by positive or negative function index, directly or through an identity), the fn-identity family (a function value handed on in tail position by 1–3 functions — also after it was evaluated — then compared with itself, used as a dictionary key, called), the index family (list / string / byte string / exception of length 0–3 called with every position from −len−3 to len+2, directly and through a closure), the badref family (one reference made ill-scoped: negative / too large position, non-existent frame) and the scope family (one enclosing closure applied along several argument paths; inner bodies refer to outer parameters statically, as computed positions, from nested functions, outermost-relative); a case is non-trivial when its '
             'tree has ≥ 8 nodes; distinct by program text',
     'trusted': ['hand-written model UH/Model/{Interp,Builtins,Machine}.lean tied to the code by correspondence only'],
     'assumptions': ['host big integers = Lean Int; IEEE-754 + − × ÷ of the host on both sides'],
